@@ -52,4 +52,54 @@ theorem c10_copy_root_siblings (prologue epilogue : List PTree) :
 example : (cloneP 10 (.tag 0 "" "r" [] [.text 1 "a".toList, .comment 2 [], .tag 3 "" "e" [] [.pi 4 "t" []]])).1
     = .tag 10 "" "r" [] [.text 11 "a".toList, .comment 12 [], .tag 13 "" "e" [] [.pi 14 "t" []]] := by rfl
 
+/-- `Document.clone` (deep clone of the root + `_copy_root_siblings` with a `copy` of every
+    sibling): the clone has the same prologue, the same root and the same epilogue, in order —
+    only the identities differ —, its identities are exactly the `(idsOfDoc d).length` fresh ones
+    from `n` on, each used once, and hence it shares no identity with the original (whose
+    identities are below the counter `n`) -/
+theorem c10_document_clone (n : Nat) (d : PDoc) :
+    stripList (cloneDocument n d).1.prologue = stripList d.prologue ∧
+    strip (cloneDocument n d).1.root = strip d.root ∧
+    stripList (cloneDocument n d).1.epilogue = stripList d.epilogue ∧
+    (idsOfDoc (cloneDocument n d).1).Perm (List.range' n (idsOfDoc d).length) ∧
+    (cloneDocument n d).2 = n + (idsOfDoc d).length ∧
+    (idsOfDoc (cloneDocument n d).1).Nodup ∧
+    ((∀ i ∈ idsOfDoc d, i < n) → ∀ i ∈ idsOfDoc (cloneDocument n d).1, i ∉ idsOfDoc d) := by
+  have hr := ids_cloneP d.root n
+  have hp := ids_cloneListP d.prologue (cloneP n d.root).2
+  have he := ids_cloneListP d.epilogue.reverse (cloneListP (cloneP n d.root).2 d.prologue).2
+  have hlen : (idsOfList d.epilogue.reverse).length = (idsOfList d.epilogue).length :=
+    (idsOfList_reverse_perm d.epilogue).length_eq
+  have hperm : (idsOfDoc (cloneDocument n d).1).Perm (List.range' n (idsOfDoc d).length) := by
+    rw [cloneDocument_eq]
+    simp only [idsOfDoc]
+    refine (((List.perm_append_comm).append (idsOfList_reverse_perm _))).trans ?_
+    rw [hr.1, hp.1, he.1, hp.2, hr.2, hlen, List.range'_append_1, Nat.add_assoc n, List.range'_append_1]
+    simp only [List.length_append]
+    rw [Nat.add_comm (idsOfList d.prologue).length]
+  have hcount : (cloneDocument n d).2 = n + (idsOfDoc d).length := by
+    rw [cloneDocument_eq]
+    show (cloneListP (cloneListP (cloneP n d.root).2 d.prologue).2 d.epilogue.reverse).2 = _
+    rw [he.2, hp.2, hr.2, hlen]
+    simp only [idsOfDoc, List.length_append]
+    omega
+  refine ⟨?_, ?_, ?_, hperm, hcount, hperm.nodup_iff.2 (List.nodup_range' 1), ?_⟩
+  · rw [cloneDocument_eq]; exact stripList_cloneListP _ _
+  · rw [cloneDocument_eq]; exact strip_cloneP _ _
+  · rw [cloneDocument_eq]
+    simp only [stripList_reverse, stripList_cloneListP, List.reverse_reverse]
+  · intro hold i hi hi'
+    have := List.mem_range'_1.1 (hperm.mem_iff.1 hi)
+    have := hold i hi'
+    omega
+
+/-- non-vacuity: a comment and a PI before, two comments after the root -/
+example :
+    cloneDocument 10 { prologue := [.comment 1 "a".toList, .pi 2 "t" []],
+                       root := .tag 0 "" "r" [] [.text 3 "x".toList],
+                       epilogue := [.comment 4 "y".toList, .comment 5 "z".toList] }
+    = ({ prologue := [.comment 12 "a".toList, .pi 13 "t" []],
+         root := .tag 10 "" "r" [] [.text 11 "x".toList],
+         epilogue := [.comment 15 "y".toList, .comment 14 "z".toList] }, 16) := by rfl
+
 end Delb.Clone
